@@ -35,7 +35,7 @@ RULE = ("0-3 --bind strings rendered from random specifications (1-4 bindings, c
         "and invalid names; arguments in the five forms with commas, colons, plus signs, brackets of the other kinds, quotes, "
         "placeholders, blanks, newlines, multi-byte text; integer arguments around the i32 limits) + a malformed stream "
         "(mutations with syntax characters, empty/missing arguments, unknown actions, blanks between actions) + --expect lists "
-        "+ parse_action_arg arguments + translate_event probes of every named key, default keys, unbound and printable keys; "
+        "+ parse_action_arg arguments + translate_event probes of every named key, default keys, unbound and printable keys (incl. characters of display width 0); "
         "at most 10 ':' per string; non-trivial = at least one --bind string containing ':' and at least two probes; distinct by sha1 of the case line")
 ASSUMPTIONS = [
     "str::to_lowercase in tuikit::from_keyname is modelled for ASCII only (generated key names contain no cased non-ASCII letter)",
@@ -55,7 +55,10 @@ SINGLE_KEYS = list("abzAZ09") + [",", "+", "(", ")", "[", '"', "'", " ", "/", "-
 BAD_KEYS = ["foo", "ctrl-1", "f13", "alt-shift-1", "ctrl-", "xx", "shift-tab-x"]
 CANON_PROBES = ["Char.97", "Char.65", "Char.32", "Char.44", "Char.20013", "Ctrl.97", "Ctrl.32", "Tab", "Enter", "Null", "ESC",
                 "F.1", "F.13", "Alt.98", "Alt.66", "AltEnter", "CtrlAlt.97", "BracketedPasteStart", "Insert", "BackTab",
-                "AltBackTab", "Char.233"]
+                "AltBackTab", "Char.233",
+                # characters of display width 0 (combining accent, zero-width joiner, variation selector, Thai vowel sign):
+                # later code points of a grapheme arrive as keys of their own and must be inserted like any other character
+                "Char.769", "Char.8205", "Char.65039", "Char.3633"]
 CLOSER = {"(": ")", "[": "]", '"': '"', "'": "'"}
 NAMECH = re.compile(r"[A-Za-z-]")
 
